@@ -59,7 +59,7 @@ def run_invariant_loop(interp, vr, node, env, it, invariants, force):
         # 3a. one more iteration, on a member not visited yet
         cnode = z3.Const(ex.fresh_name('member'), HM.Node)
         ex.assume(z3.And(it.member(cnode), z3.Not(z3.Select(done, cnode))))
-        interp.assign(node.target, HM.heap_cell(interp, cnode), env)
+        interp.assign(node.target, it.element(interp, cnode), env)
         from .interp import BreakSig, ContinueSig
         try:
             interp.exec_block(node.body, env)
